@@ -1137,6 +1137,25 @@ class Compiler:
 
     # ---- Expressions ----
 
+    _COMPOUND_OPCODES = {
+        "+": OpCode.ADD,
+        "-": OpCode.SUB,
+        "*": OpCode.MUL,
+        "/": OpCode.DIV,
+        "%": OpCode.MOD,
+        "**": OpCode.POW,
+        "&": OpCode.BAND,
+        "|": OpCode.BOR,
+        "^": OpCode.BXOR,
+        "<<": OpCode.SHL,
+        ">>": OpCode.SHR,
+        ">>>": OpCode.USHR,
+    }
+
+    def _compound_opcode(self, operator: str) -> OpCode:
+        """Opcode of the binary operator inside a compound assignment like '+='."""
+        return self._COMPOUND_OPCODES[operator[:-1]]  # Remove '='
+
     def _compile_expression(self, node: Node) -> None:
         """Compile an expression."""
         if isinstance(node, NumericLiteral):
@@ -1470,21 +1489,7 @@ class Compiler:
                                 idx = self._add_name(name)
                                 self._emit(OpCode.LOAD_NAME, idx)
                     self._compile_expression(node.right)
-                    op = node.operator[:-1]  # Remove '='
-                    op_map = {
-                        "+": OpCode.ADD,
-                        "-": OpCode.SUB,
-                        "*": OpCode.MUL,
-                        "/": OpCode.DIV,
-                        "%": OpCode.MOD,
-                        "&": OpCode.BAND,
-                        "|": OpCode.BOR,
-                        "^": OpCode.BXOR,
-                        "<<": OpCode.SHL,
-                        ">>": OpCode.SHR,
-                        ">>>": OpCode.USHR,
-                    }
-                    self._emit(op_map[op])
+                    self._emit(self._compound_opcode(node.operator))
 
                 self._emit(OpCode.DUP)
                 cell_slot = self._get_cell_var(name)
@@ -1511,7 +1516,14 @@ class Compiler:
                 else:
                     idx = self._add_constant(node.left.property.name)
                     self._emit(OpCode.LOAD_CONST, idx)
-                self._compile_expression(node.right)
+                if node.operator == "=":
+                    self._compile_expression(node.right)
+                else:
+                    # Compound assignment: [obj, key] -> [obj, key, old_value]
+                    self._emit(OpCode.DUP2)
+                    self._emit(OpCode.GET_PROP)
+                    self._compile_expression(node.right)
+                    self._emit(self._compound_opcode(node.operator))
                 self._emit(OpCode.SET_PROP)
 
         elif isinstance(node, SequenceExpression):
